@@ -32,6 +32,9 @@ def dwarfSpec (row : Row) (spVal fpVal curRa : Nat) (mem : Mem) : SpecRes :=
   match row.cfa with
   | .regOff .sp off => go ((spVal : Int) + off)
   | .regOff .fp off => go ((fpVal : Int) + off)
+  -- the same value computed by a DWARF expression (`DW_OP_breg<r> off`)
+  | .exprRegOff .sp off => go ((spVal : Int) + off)
+  | .exprRegOff .fp off => go ((fpVal : Int) + off)
   | _ => .outside
 where
   go (cfa : Int) : SpecRes :=
@@ -435,7 +438,36 @@ theorem genericX64_exact (row : Row) (first : Bool) (regs : RegsX64) (mem : Mem)
   unfold dwarfSpec at hs
   cases hc : row.cfa with
   | expr => simp [hc] at hs
-  | exprRegOff _ _ => simp [hc] at hs
+  | exprRegOff reg off =>
+    -- the expression evaluator adds with wrap-around; within 64 bits that is the sum
+    have wrap : ∀ base : Nat, cfa = (base : Int) + off →
+        wrappingAddSigned base off = cfa.toNat := by
+      intro base he
+      unfold wrappingAddSigned
+      rw [← he, Int.emod_eq_of_lt hcfa.1 hcfa.2]
+    cases reg with
+    | ra => simp [hc] at hs
+    | other => simp [hc] at hs
+    | sp =>
+      simp only [hc] at hs
+      have hgo := hs
+      have hcfaeq : cfa = (regs.sp : Int) + off := by
+        unfold dwarfSpec.go at hs
+        split at hs <;> (try (simp at hs)) <;> (repeat' split at hs) <;>
+          first | (injection hs with _ e _; exact e.symm) | (simp at hs)
+      apply main cfa.toNat rfl
+      · simp only [hc, evalCfa, evalBreg, getX64, wrap regs.sp hcfaeq]
+      · rw [← hcfaeq] at hgo; exact hgo
+    | fp =>
+      simp only [hc] at hs
+      have hgo := hs
+      have hcfaeq : cfa = (regs.bp : Int) + off := by
+        unfold dwarfSpec.go at hs
+        split at hs <;> (try (simp at hs)) <;> (repeat' split at hs) <;>
+          first | (injection hs with _ e _; exact e.symm) | (simp at hs)
+      apply main cfa.toNat rfl
+      · simp only [hc, evalCfa, evalBreg, getX64, wrap regs.bp hcfaeq]
+      · rw [← hcfaeq] at hgo; exact hgo
   | regOff reg off =>
     have hoff : InI64 off := by simpa [CfaRule.WF, hc] using hwc
     cases reg with
@@ -847,7 +879,35 @@ theorem genericA64_exact (row : Row) (first : Bool) (regs : RegsA64) (mem : Mem)
   unfold dwarfSpec at hs
   cases hc : row.cfa with
   | expr => simp [hc] at hs
-  | exprRegOff _ _ => simp [hc] at hs
+  | exprRegOff reg off =>
+    have wrap : ∀ base : Nat, cfa = (base : Int) + off →
+        wrappingAddSigned base off = cfa.toNat := by
+      intro base he
+      unfold wrappingAddSigned
+      rw [← he, Int.emod_eq_of_lt hcfa.1 hcfa.2]
+    cases reg with
+    | ra => simp [hc] at hs
+    | other => simp [hc] at hs
+    | sp =>
+      simp only [hc] at hs
+      have hgo := hs
+      have hcfaeq : cfa = (regs.sp : Int) + off := by
+        unfold dwarfSpec.go at hs
+        split at hs <;> (try (simp at hs)) <;> (repeat' split at hs) <;>
+          first | (injection hs with _ e _; exact e.symm) | (simp at hs)
+      apply main
+      · simp only [hc, evalCfa, evalBreg, getA64, wrap regs.sp hcfaeq]
+      · rw [← hcfaeq] at hgo; exact hgo
+    | fp =>
+      simp only [hc] at hs
+      have hgo := hs
+      have hcfaeq : cfa = (regs.fp : Int) + off := by
+        unfold dwarfSpec.go at hs
+        split at hs <;> (try (simp at hs)) <;> (repeat' split at hs) <;>
+          first | (injection hs with _ e _; exact e.symm) | (simp at hs)
+      apply main
+      · simp only [hc, evalCfa, evalBreg, getA64, wrap regs.fp hcfaeq]
+      · rw [← hcfaeq] at hgo; exact hgo
   | regOff reg off =>
     have hoff : InI64 off := by simpa [CfaRule.WF, hc] using hwc
     cases reg with
